@@ -2,6 +2,7 @@ from typing import Dict, List
 
 import numpy as np
 
+from classy_blocks.construct.edges import Project
 from classy_blocks.construct.flat.face import Face
 from classy_blocks.construct.flat.sketches.disk import QuarterDisk
 from classy_blocks.construct.operations.loft import Loft
@@ -177,6 +178,31 @@ class EighthSphere(Shape):
     @property
     def center(self):
         return self.center_point
+
+    def copy(self):
+        """A copy is projected to a searchable sphere of its own:
+        the label of the original is replaced by the copy's everywhere"""
+        copied = super().copy()
+        old_label = self.geometry_label
+        new_label = copied.geometry_label
+
+        def rename(labels):
+            return [new_label if label == old_label else label for label in labels]
+
+        for operation in copied.operations:
+            operation.side_projects = rename(operation.side_projects)
+
+            for face in (operation.bottom_face, operation.top_face):
+                face.projected_to = rename([face.projected_to])[0]
+
+                for point in face.points:
+                    point.projected_to = rename(point.projected_to)
+
+            for edge in [*operation.bottom_face.edges, *operation.top_face.edges, *operation.side_edges]:
+                if isinstance(edge, Project):
+                    edge.label = sorted(rename(edge.label))
+
+        return copied
 
     @property
     def geometry(self):
